@@ -79,7 +79,25 @@ fn auth_data(variant: u8) -> AuthenticatorData {
     let ad = AuthenticatorData::new("example.com", Some(u32::from(variant) * 1000 + 5)).set_flags(Flags::UP | Flags::UV);
     if variant >= 1 {
         let (x, y) = public_xy_from_scalar(&fixed_scalar(1));
-        let key = coset::CoseKeyBuilder::new_ec2_pub_key(coset::iana::EllipticCurve::P_256, x.to_vec(), y.to_vec()).algorithm(coset::iana::Algorithm::ES256).build();
+        let key = match variant {
+            // variant 5: the credential key's parameters in a legal order that is not the canonical one
+            // (x, y, crv); variant 6: with a key id and an unregistered parameter in front.  The message
+            // value holds them in that order, so that is the order a reader of the bytes must find
+            5 => coset::CoseKey {
+                kty: coset::RegisteredLabel::Assigned(coset::iana::KeyType::EC2),
+                alg: Some(coset::RegisteredLabelWithPrivate::Assigned(coset::iana::Algorithm::ES256)),
+                params: vec![(coset::Label::Int(-2), Cbor::Bytes(x.to_vec())), (coset::Label::Int(-3), Cbor::Bytes(y.to_vec())), (coset::Label::Int(-1), Cbor::Integer(1.into()))],
+                ..Default::default()
+            },
+            6 => coset::CoseKey {
+                kty: coset::RegisteredLabel::Assigned(coset::iana::KeyType::EC2),
+                alg: Some(coset::RegisteredLabelWithPrivate::Assigned(coset::iana::Algorithm::ES256)),
+                key_id: vec![1, 2, 3],
+                params: vec![(coset::Label::Int(-70000), Cbor::Text("vendor".into())), (coset::Label::Int(-3), Cbor::Bytes(y.to_vec())), (coset::Label::Int(-1), Cbor::Integer(1.into())), (coset::Label::Int(-2), Cbor::Bytes(x.to_vec()))],
+                ..Default::default()
+            },
+            _ => coset::CoseKeyBuilder::new_ec2_pub_key(coset::iana::EllipticCurve::P_256, x.to_vec(), y.to_vec()).algorithm(coset::iana::Algorithm::ES256).build(),
+        };
         // variant 3 (long members): the longest credential id WebAuthn allows; variant 4: one more
         let id_len = match variant {
             3 => 1023,
@@ -355,6 +373,10 @@ pub fn cases(tier: Tier) -> Vec<Case> {
         for pattern in 0..(1u32 << nopt) {
             // variant 3: byte-string members longer than 4 KiB – round trip only
             v.push(Case { ty: ty.into(), pattern, variant: 3, mutation: "base".into() });
+            // variants 5, 6: nested maps (the credential public key) with members in a legal
+            // non-canonical order / with extra members - round trip only
+            v.push(Case { ty: ty.into(), pattern, variant: 5, mutation: "base".into() });
+            v.push(Case { ty: ty.into(), pattern, variant: 6, mutation: "base".into() });
             // variant 4: nested optional structures and lists present but empty
             for variant in [0u8, 1, 2, 4] {
                 let mk = |m: String| Case { ty: ty.into(), pattern, variant, mutation: m };
